@@ -391,6 +391,35 @@ func c09CheckSet(w *run.Worker, set map[string]c09Var, allParseOrders bool) {
 			}
 			verdict := strings.Join(vparts, ",")
 			if firstVerdict == "" {
+				// a later load of another deployment (same texts, one leaf script different) must not touch this result
+				srcs2 := map[string]string{}
+				changed := false
+				for _, n2 := range names {
+					srcs2[n2] = srcs[n2]
+					if !changed && set[n2].Kind == 0 && len(set[n2].Uses) == 0 {
+						srcs2[n2] = "p(2)\n"
+						changed = true
+					}
+				}
+				ok2, _ := c09Load(srcs2, po, lo)
+				w.Eval()
+				w.Note("later_load_invariance_checks", 1)
+				for _, n2 := range names {
+					sc, acc := ok[n2]
+					if !acc {
+						continue
+					}
+					for ci, call := range c09UseCalls(sc.Ast) {
+						tgt := call.Param[0].StringLiteral().Val
+						if bound, _ := call.PrivateData.(*plrt.Script); bound == nil || bound != ok[tgt] {
+							which := "nothing / a foreign script"
+							if bound != nil && bound == ok2[tgt] {
+								which = "the LATER load's script of that name"
+							}
+							w.Violate("C09:binding-changed-by-a-later-load", fmt.Sprintf("after loading a second set, use call #%d use(%q) of the first load's %s is bound to %s\nfirst set:\n%ssecond set differs in: %v", ci, tgt, n2, which, describe(), srcs2), cs)
+						}
+					}
+				}
 				firstVerdict = verdict
 				w.Outcome(verdict + "|" + fmt.Sprint(len(names)))
 			} else if verdict != firstVerdict {
